@@ -624,7 +624,13 @@ func (r *c10Run) govSwitch() {
 		offSel := map[string]bool{}
 		offAddr := map[common.Address]bool{}
 		n := 2 + rng.IntN(2)
-		for _, j := range rng.Perm(len(ms))[:n] {
+		for _, j := range rng.Perm(len(ms)) {
+			if len(list) >= n {
+				break
+			}
+			if offSel[sel(ms[j])] {
+				continue // two workload entries may share a selector; the parameter list takes each entry once
+			}
 			list = append(list, idOf(ms[j]))
 			offSel[sel(ms[j])] = true
 		}
